@@ -335,9 +335,15 @@ class G:
                         body.append({"k": "ctl", "v": "break"})
             c = {"default": is_default, "head": None if is_default else self.case_head(), "body": body}
             cases.append(c)
+        head = self.switch_head()
+        if head["h"] == "dmode":
+            # implicit precondition: dungeon-mode values are 0..3 or one of the configured constants
+            for c in cases:
+                if c["head"] and c["head"]["ch"] == "val":
+                    c["head"]["v"] = self.pick([{"t": "int", "v": self.i(0, 3)}, {"t": "const", "v": self.pick(T.DUNGEON_MODE_CONSTANTS)}])
         if cases and not cases[-1]["body"]:
             cases[-1]["body"] = [self.op()]
-        return {"k": "switch", "head": self.switch_head(), "cases": cases}
+        return {"k": "switch", "head": head, "cases": cases}
 
     def stmt(self, depth, in_loop, in_case):
         self.take()
